@@ -30,7 +30,7 @@ func init() {
 			{Name: "publisher takes the syncer mutex around gossip writes", File: "server/gossip/syncer.go", Old: "func (s *syncer) onLocalEndpointUpdate(endpointID string) {\n", New: "func (s *syncer) onLocalEndpointUpdate(endpointID string) {\n\ts.mu.Lock()\n\tdefer s.mu.Unlock()\n", Rule: "C20.L1"},
 			{Name: "early return keeps the cluster mutex", File: "server/cluster/state.go", Old: "\t\ts.logger.Warn(\"remove local endpoint: endpoint not found\")\n\t\ts.mu.Unlock()\n\t\treturn\n", New: "\t\ts.logger.Warn(\"remove local endpoint: endpoint not found\")\n\t\treturn\n", Rule: "C20.L6"},
 			{Name: "failure detector window read without its lock", File: "pkg/gossip/failuredetector.go", Old: "func (d *accrualFailureDetector) Remove(nodeID string) {\n\td.mu.Lock()\n\tdefer d.mu.Unlock()\n", New: "func (d *accrualFailureDetector) Remove(nodeID string) {\n", Rule: "C20.L2"},
-			{Name: "cluster update after releasing the manager mutex", File: "server/upstream/manager.go", Old: "func (m *LoadBalancedManager) RemoveConn(u Upstream) {\n\tm.mu.Lock()\n\tdefer m.mu.Unlock()\n", New: "func (m *LoadBalancedManager) RemoveConn(u Upstream) {\n\tm.mu.Lock()\n\tdefer m.cluster.RemoveLocalEndpoint(\"\")\n\tdefer m.mu.Unlock()\n", Rule: "C20.L7"},
+			{Name: "cluster update after releasing the manager mutex", File: "server/upstream/manager.go", Old: "func (m *LoadBalancedManager) RemoveConn(u Upstream) {\n\tm.mu.Lock()\n\tdefer m.mu.Unlock()\n", New: "func (m *LoadBalancedManager) RemoveConn(u Upstream) {\n\tm.mu.Lock()\n\tdefer m.cluster.RemoveLocalEndpoint(\"\")\n\tdefer m.mu.Unlock()\n", Rule: "C05.R4"},
 			{Name: "benign: defer replaced by explicit unlock", Benign: true, File: "server/cluster/state.go", Old: "func (s *State) LocalEndpointListeners(endpointID string) int {\n\ts.mu.Lock()\n\tdefer s.mu.Unlock()\n\n\tnode, ok := s.nodes[s.localID]\n\tif !ok {\n\t\tpanic(\"local node not in cluster\")\n\t}\n\n\tif node.Endpoints == nil {\n\t\treturn 0\n\t}\n\treturn node.Endpoints[endpointID]\n}", New: "func (s *State) LocalEndpointListeners(endpointID string) int {\n\ts.mu.Lock()\n\n\tnode, ok := s.nodes[s.localID]\n\tif !ok {\n\t\tpanic(\"local node not in cluster\")\n\t}\n\n\tif node.Endpoints == nil {\n\t\ts.mu.Unlock()\n\t\treturn 0\n\t}\n\tn := node.Endpoints[endpointID]\n\ts.mu.Unlock()\n\treturn n\n}"},
 			{Name: "benign: RLock instead of Lock for a reader", Benign: true, File: "server/cluster/state.go", Old: "func (s *State) LocalEndpointListeners(endpointID string) int {\n\ts.mu.Lock()\n\tdefer s.mu.Unlock()\n", New: "func (s *State) LocalEndpointListeners(endpointID string) int {\n\ts.mu.RLock()\n\tdefer s.mu.RUnlock()\n"},
 		},
@@ -145,26 +145,6 @@ func runC20(c *Ctx) {
 	c20L4(c, li)
 	c20L5(c, li)
 	c20L6(c, li)
-	// L7
-	upstreams := p.Field(upPkg, "loadBalancer", "upstreams")
-	localUp := p.Field(upPkg, "LoadBalancedManager", "localUpstreams")
-	muF := p.Field(upPkg, "LoadBalancedManager", "mu")
-	mgr := p.NamedType(upPkg, "LoadBalancedManager")
-	if upstreams != nil && localUp != nil && muF != nil && mgr != nil {
-		before := len(c.Obs)
-		c05R4(c, upstreams, localUp, muF, mgr)
-		c05R5(c, upstreams, localUp)
-		for i := before; i < len(c.Obs); i++ {
-			c.Obs[i].Rule = "C20.L7"
-			c.Obs[i].Key = "C20.L7/" + c.Obs[i].Key
-		}
-		for r := range c.floors {
-			if strings.HasPrefix(r, "C05.") {
-				delete(c.floors, r)
-			}
-		}
-		c.floor("C20.L7", 10)
-	}
 	// no reflection / unsafe in module packages (VTA soundness assumption)
 	for _, pk := range p.Pkgs {
 		if strings.Contains(pk.PkgPath, "/tests") || strings.Contains(pk.PkgPath, "/cli") {
